@@ -167,19 +167,37 @@ def class_writes(ctx, P, views, iters):
 
 
 def classchange_order(ctx, P, views, iters):
-    ob = ctx.ob("CCORD", "change_state_classchange(self, ind) is called after customer_class is rewritten and before previous_class is overwritten (the handlers read both)")
+    ob = ctx.ob("CCORD", "change_state_classchange(self, ind) is called after customer_class is rewritten and before previous_class is overwritten (the handlers read both); next_class is re-armed only after previous_class was taken from it")
     for view in views:
         cls, fn = view.method("change_customer_class_while_waiting")
 
+        # self-methods that rewrite next_class (the class the customer will change to NEXT): previous_class = next_class must be
+        # taken before any of them runs, or it records a class the customer has not reached yet
+        rewriters = set()
+        for mm in view.methods():
+            try:
+                body = view.resolve(mm)[1]
+            except Exception:
+                continue
+            if mm != "change_customer_class_while_waiting" and any(
+                    isinstance(x, (ast.Assign, ast.AugAssign)) and any(isinstance(t, ast.Attribute) and t.attr == "next_class" for t in (
+                        x.targets if isinstance(x, ast.Assign) else [x.target])) for x in ast.walk(body)):
+                rewriters.add(mm)
+
         def keep(e):
             if e.kind == "assign" and not e.d.get("local"):
-                return e.d["target"].endswith(".customer_class") or e.d["target"].endswith(".previous_class")
+                return e.d["target"].endswith(".customer_class") or e.d["target"].endswith(".previous_class") or e.d["target"].endswith(".next_class")
+            if e.kind == "call" and e.d.get("recv") == "self" and e.d["meth"] in rewriters:
+                return True
             return _notif(e) and e.d["meth"] == "change_state_classchange"
         w = Walker(P, view, keep=keep, inline=rules.new_helper, loop_iters=iters)
         for st in w.paths_of(cls, fn):
             if st.status == "raise":
                 continue
-            seq = ["N" if x.kind == "call" else ("C" if x.d["target"].endswith(".customer_class") else "P") for x in st.events]
+            seq = [("N" if _notif(x) else "X") if x.kind == "call" else ("C" if x.d["target"].endswith(".customer_class") else (
+                "P" if x.d["target"].endswith(".previous_class") else "X")) for x in st.events]
+            while seq and seq[-1] == "X":    # re-arming the next change after the bookkeeping is the intended order
+                seq.pop()
             ob.ok("%s:%s" % (view.name, "".join(seq)), "%s.change_customer_class_while_waiting: %s" % (view.name, " -> ".join(x.text[:50] for x in st.events)))
             if seq != ["C", "N", "P"]:
                 ctx.violation(ob, "R4.must-precede", "%s.change_customer_class_while_waiting" % cls.name, "".join(seq), "classchange-notification-order",
